@@ -80,6 +80,7 @@ class ReferenceImpl(Derivable, Impl):
     def on_inherit(self, updater, bases):
 
         self.model.clear_attr_referrers(self)
+        self.refmode = bases[0].refmode     # the first definer may have changed
         if bases[0].has_interface():
 
             if self.refmode == "absolute":
